@@ -229,10 +229,7 @@ func (e *fnEnc) heapGet2(st *state, comp string, s Sort) Term {
 	return e.heapGetEpoch(st, comp, s)
 }
 
-func (e *fnEnc) setHeap(st *state, comp string, v Term) {
-	st.m[comp] = v
-	e.logMod(comp, v.Sort)
-}
+func (e *fnEnc) setHeap(st *state, comp string, v Term) { e.heapSet(st, comp, v) }
 
 // ---------- arithmetic ----------
 
@@ -698,7 +695,7 @@ func (e *fnEnc) alloc(c *blockCtx, in *ssa.Alloc) {
 func (e *fnEnc) zeroStruct(st *state, si *structInfo, r Term) {
 	for i, f := range si.fields {
 		if f.embStruct {
-			e.zeroStruct(st, e.structOf(f.typ), app(SInt, e.embFun(si, i), r))
+			e.zeroStruct(st, e.structOf(f.typ), e.embApp(si, i, r))
 			continue
 		}
 		comp, s := e.fieldComp(si, i)
@@ -762,7 +759,7 @@ func (e *fnEnc) fieldAddr(c *blockCtx, in *ssa.FieldAddr) {
 		e.obligation("nil", e.exprName(in), c.reach, not(eq(obj, intLit(0))), "nil dereference", e.posOf(in), false)
 	}
 	if f.embStruct {
-		e.define(in, app(SInt, e.embFun(si, in.Field), obj))
+		e.define(in, e.embApp(si, in.Field, obj))
 		return
 	}
 	e.lvals[in] = &LValue{kind: 1, ref: obj, owner: si, field: in.Field, typ: f.typ}
@@ -897,7 +894,7 @@ func (e *fnEnc) store(c *blockCtx, in *ssa.Store) {
 func (e *fnEnc) storeStructM(st *state, si *structInfo, p Term, rec Term) {
 	for i, f := range si.fields {
 		if f.embStruct {
-			e.storeStructM(st, e.structOf(f.typ), app(SInt, e.embFun(si, i), p), e.proj(si, rec, i))
+			e.storeStructM(st, e.structOf(f.typ), e.embApp(si, i, p), e.proj(si, rec, i))
 			continue
 		}
 		comp, s := e.fieldComp(si, i)
